@@ -777,6 +777,14 @@ def check_c15(tier, seed):
                 out, eq = impl.enc_exc(e), False
             calls.add({"f": "roundtrip", "via": via, "ref": ref, "out": out, "eq": eq},
                       {"f": "roundtrip", "via": via, "ref": repr(obj), "out": out[:3] if out[0] == "raise" else "ok", "eq": eq})
+        # from_reference into the three pydantic classes, with and without a context converter
+        if cls != "tuple":
+            for tcls in ("ref", "namable", "named"):
+                for ci in (0, ctx_extra, ctx_idx[0]):
+                    ctx = calls.conv_objs[ci - 1] if ci else None
+                    out, _ = _enc_out(I, lambda: _ref_cls(tcls).from_reference(obj, converter=ctx))
+                    calls.add({"f": "from_reference", "cls": tcls, "ref": ref, "ctx": ci, "out": out},
+                              {"f": "from_reference", "cls": tcls, "ref": repr(obj), "ctx": ci, "out": out[:3] if out[0] == "raise" else "ok"})
         # immutability
         for field in ("prefix", "identifier"):
             try:
